@@ -72,6 +72,55 @@ CHECKS.update({
             "explicit-state model checking (state closure) with a differential oracle between two procedures", "4/C19"),
 })
 
+T_NOTE = ("Trusted: the cooperative lock/condition/flock shims (validated by the self-test against the real primitives), "
+          "the interposition layer (its layered open() is compared with the builtin in the self-test), GIL atomicity "
+          "between scheduling points.")
+CHECKS.update({
+    "C08": ("T+F", "model_checking",
+            "Engine T: lock-heavy scenarios (same pid / cid / document, two waiters on one condition so the notify() wake-up "
+            "choice is explored), every interleaving: no state without an enabled thread, all locked lists empty at the "
+            "end, eight follow-up calls on the identifiers complete. Engine F: an I/O error at every fault site of every "
+            "call of the C13 table, then lists empty and follow-up calls on the same instance complete.",
+            T_NOTE + " Triples are pre-emption bounded (2).",
+            "stateless model checking under a controlled scheduler (deadlock = no enabled thread) + exhaustive "
+            "single-fault enumeration", "4/C08"),
+    "C09": ("T+F", "model_checking",
+            "The observer invariant I9 (object file hashes to its name, metadata document is a complete supplied version, "
+            "pid reference is one complete cid) is evaluated on the kernel-visible tree after EVERY scheduling step of every "
+            "interleaving of a writer with a concurrent reader (contents of 0, 1, one buffer, three buffers + 7 bytes) and "
+            "on the crash image before every file-system operation of 13 calls.",
+            T_NOTE + " Process death = completed system calls are durable, user-space buffers are not.",
+            "stateless model checking with a per-step observer + exhaustive crash-point enumeration", "4/C09"),
+    "C10": ("F", "model_checking",
+            "For 24 (call, starting state) cases the kernel-visible tree before every file-system operation and after the "
+            "last is captured; every distinct crash image is re-opened by a fresh FileHashStore: bystanders' bytes, "
+            "references and metadata must be as before, the interrupted pid is served exact bytes or a not-found / "
+            "inconsistency class, delete_object then store_object must succeed, I9 must hold.",
+            "Trusted: the interposition layer's view of completed system calls. Power loss / page-cache loss not modelled.",
+            "exhaustive crash-point enumeration on the implementation (every prefix of the call's system-call trace)", "4/C10"),
+    "C12": ("T", "model_checking",
+            "Every interleaving of pairs drawn from store(v1), store(v2), retrieve, delete(format), delete(all), "
+            "delete_object on one pid and one or two formats, document absent / present; linearizability oracle from "
+            "sequential runs of the real code; I9 on every step. Thorough adds triples (pre-emption bound 2).",
+            T_NOTE, "stateless model checking under a controlled scheduler with a linearizability oracle", "4/C12"),
+    "C13": ("F", "fault_enumeration",
+            "For 24 (call, starting state) cases: an OSError (EIO, ENOSPC, EACCES) at every create / open / rename / remove "
+            "/ mkdir / write / chmod / flock operation of the recorded trace, one-off and persistent for that path; oracle "
+            "from the statement (success only with the whole effect, failed store/tag leaves the pid unbound and storable "
+            "again at once, failed store_metadata keeps the previous version, bystanders untouched).",
+            "Trusted: the interposition layer; one fault per call. Known findings C13-P1 / C13-P2 (persistent faults on "
+            "reference files defeat the roll-back) are listed by exact (case, site, errno, mode, symptom).",
+            "exhaustive single-fault enumeration over the call's recorded system-call trace", "4/C13"),
+    "C16": ("S+T", "model_checking",
+            "Engine S: every transition of the C05 and C11 closures is executed in both synchronisation modes and must give "
+            "the same outcome and the same tree (and satisfy the model). Engine T: C07 / C12 / C08 scenarios through the "
+            "_mp code paths with one instance copy per 'process' and shared _mp primitives, same oracles.",
+            T_NOTE + " Real forked processes and the real multiprocessing primitives are exercised only by the sampled "
+            "conformance self-test. Known findings C16-R1 / C16-R3 mirror C07's.",
+            "explicit-state differential model checking + stateless model checking of the multiprocessing code paths on "
+            "cooperative shims", "4/C16"),
+})
+
 NOT_YET = {}
 
 
@@ -115,6 +164,10 @@ def main():
              "kind_free_text": "thread-interleaving explorer of the real FileHashStore: controlled scheduler, scheduling "
                                "points at file-system calls / raw I/O / lock operations, DFS with exact state caching, "
                                "persistent-set reduction with verified footprints, linearizability oracle"},
+            {"name": "F", "path": "hsverif/engine_f.py",
+             "serves_properties": ["C08", "C09", "C10", "C13"],
+             "kind_free_text": "single-call recorder: crash image before every file-system operation, one injected "
+                               "OSError per fault site x errno x {one-off, persistent}"},
             {"name": "E", "path": "hsverif/checks",
              "serves_properties": ["C01", "C02", "C06", "C14", "C15", "C17", "C18", "C20"],
              "kind_free_text": "complete finite products of inputs / configurations against independent oracles"},
